@@ -30,16 +30,19 @@ theorem past_answered (m : Market P) (hinv : Inv m) (t : Nat) (h : t ≤ m.time)
     rw [List.getElem?_eq_getElem this]
     exact ⟨_, rfl⟩
 
-/-- The clock advances by exactly one at a clock step and never otherwise. -/
+/-- The clock advances by exactly one at a clock step (by the requested amount at an explicit
+`_set_time` jump) and never otherwise. -/
 theorem clock (ops : PriceOps P) (m : Market P) (o : Op P) :
     (m.step ops o).1.time = match o with
       | .tick _ => m.time + 1
+      | .jump k _ => m.time + (k + 1)
       | _ => m.time := by
   cases o with
   | tick f => simp [Market.step, Market.tick]
-  | add r => exact (step_clock_past ops m (.add r) (by simp)).2
-  | cancel id => exact (step_clock_past ops m (.cancel id) (by simp)).2
-  | exec => exact (step_clock_past ops m .exec (by simp)).2
+  | jump k f => simp [Market.step, Market.setTime]
+  | add r => exact (step_clock_past ops m (.add r) (by simp) (by simp)).2
+  | cancel id => exact (step_clock_past ops m (.cancel id) (by simp) (by simp)).2
+  | exec => exact (step_clock_past ops m .exec (by simp) (by simp)).2
   | setRunning b => rfl
 
 /-- Recorded history never changes: whatever operation is performed, every value recorded for a
@@ -48,8 +51,8 @@ volume, turnover, order counts — the whole slot) reads the same afterwards. -/
 theorem history_never_changes (ops : PriceOps P) (m : Market P) (hinv : Inv m) (o : Op P)
     (t : Nat) (ht : t < m.time) : (m.step ops o).1.slotAt t = m.slotAt t := by
   have hlen := hinv.past
-  by_cases htick : ∃ f, o = .tick f
-  · obtain ⟨f, rfl⟩ := htick
+  cases o with
+  | tick f =>
     have hp := tick_clock_past ops m f
     simp only [Market.step]
     rw [slotAt_past _ t (by rw [hp.2]; omega), slotAt_past m t ht]
@@ -57,10 +60,32 @@ theorem history_never_changes (ops : PriceOps P) (m : Market P) (hinv : Inv m) (
     rw [hp.1, hp.2]
     have : m.time + 1 - 1 - t = (m.time - 1 - t) + 1 := by omega
     rw [this, List.getElem?_cons_succ]
-  · have hp := step_clock_past ops m o (fun f h => htick ⟨f, h⟩)
+  | jump k f =>
+    have hp := setTime_clock_past ops m (k + 1) f
+    simp only [Market.step]
+    rw [slotAt_past _ t (by rw [hp.2]; omega), slotAt_past m t ht]
+    unfold Market.pastAt
+    rw [hp.1, hp.2]
+    have e : m.time + (k + 1) - 1 - t = (List.replicate (k + 1 - 1) (Slot.empty ops)).length + ((m.time - 1 - t) + 1) := by
+      simp; omega
+    rw [e, List.getElem?_append_right (by omega)]
+    simp
+  | add r =>
+    have hp := step_clock_past ops m (.add r) (by simp) (by simp)
     rw [slotAt_past _ t (by rw [hp.2]; exact ht), slotAt_past m t ht]
     unfold Market.pastAt
     rw [hp.1, hp.2]
+  | cancel id =>
+    have hp := step_clock_past ops m (.cancel id) (by simp) (by simp)
+    rw [slotAt_past _ t (by rw [hp.2]; exact ht), slotAt_past m t ht]
+    unfold Market.pastAt
+    rw [hp.1, hp.2]
+  | exec =>
+    have hp := step_clock_past ops m .exec (by simp) (by simp)
+    rw [slotAt_past _ t (by rw [hp.2]; exact ht), slotAt_past m t ht]
+    unfold Market.pastAt
+    rw [hp.1, hp.2]
+  | setRunning b => rfl
 
 /-- … and the value that was current when the clock stepped is what is recorded for that time. -/
 theorem tick_records_current (ops : PriceOps P) (m : Market P) (hinv : Inv m) (f : Option P) :
